@@ -12,7 +12,9 @@ RULE = ("histories of 1-25 operations from {read id, regenerate, register, unreg
         "identifier file in canonical, upper-case, un-hyphenated, braced, newline-terminated, empty, garbage form / with "
         "either or both markers / with symlinks (to a victim file, dangling, to a directory) at marker paths; the "
         "subscription-manager identity is stubbed (none, or a fixed UUID in a share of histories); after every operation "
-        "a snapshot (type, inode, mtime, bytes) and the audit log of open-for-write / remove events are checked; one "
+        "a snapshot (type, inode, mtime, bytes) and the audit log of open-for-write / remove events are checked; a share of the "
+        "registrations / unregistrations runs with the n-th os.remove failing (EACCES) and must not be what puts both markers "
+        "into one directory; one "
         "evaluation = one history; non-trivial = >= 3 operations including a read and a marker operation; distinct by hash")
 ASSUMPTIONS = [
     "a history is one process; 'across client runs' is simulated by re-reading from disk (the functions keep no in-memory state)",
